@@ -105,7 +105,9 @@ def showOpt (f : α → String) : Option α → String
   | none => "-"
 
 def showPP (p : PrefixParams) : String :=
-  joinWith ":" [showOpt toString p.prefixId, showOpt id p.pbytes, showOpt toString p.flush, showOpt showBool p.randomize]
+  -- absent and empty prefix bytes are printed alike (`-`): protobuf does not keep the difference reliably
+  let pb := match p.pbytes with | some "" => "-" | some b => b | none => "-"
+  joinWith ":" [showOpt toString p.prefixId, pb, showOpt toString p.flush, showOpt showBool p.randomize]
 
 def showParams : Option Params → String
   | none => "-"
